@@ -112,8 +112,17 @@ def run_worker(case, choices):
             res.violate("C11:worker:%s:exited" % kind, "the worker exited (%r) by itself; boot_error=%r; %s" % (p.status, w.boot_error, ctx()))
         gaps = [b - a for a, b in zip(beats, beats[1:])]
         end_t = sim.now if p.state == "running" else getattr(p, "exit_time", sim.now)
+        if term_at is not None:
+            # a retired worker owes heartbeats while it drains, i.e. until its graceful timeout has passed; a process that lingers
+            # after that (CPython joins the pool threads at exit) is overdue, and being killed then is not "killed for inactivity"
+            handled = [t_ for t_, sg in p.sig_received if sg == int(signal.SIGTERM)]
+            if handled:
+                gt_ = max(2, T + 1)
+                end_t = min(end_t, handled[0] + gt_)
+                beats = [b for b in beats if b <= end_t + 1e-9]
+                gaps = [b - a for a, b in zip(beats, beats[1:])]
         if beats:
-            gaps.append(end_t - beats[-1])
+            gaps.append(max(0.0, end_t - beats[-1]))
         worst = max(gaps) if gaps else sim.now
         sim.probe("worker_side_runs")
         if worst >= T - 1e-6:
